@@ -29,6 +29,7 @@ meta = {
         "demo_without_change": f"{dop} passed, {dof} failed",
         "command": "tools/confirm_seed.sh (cargo test --workspace --no-fail-fast --offline; cargo test -p <crate> --test verif_demo)",
     },
+    "base": (conf.get("base") or "")[:7] or None,
     "author": "independent sub-agent given only the property text and a scratch worktree",
 }
 json.dump(meta, open(f"{dst}/meta.json", "w"), indent=1)
